@@ -200,7 +200,7 @@ def build_cfg(c, out):
 
 
 def evaluate(env, c):
-    d = env.driver("ts-asan")
+    d = env.driver(c.get("variant", "ts-asan"))
     out = d.out
     ini = build_cfg(c, out)
     if any(len(l) > 1022 for l in ini.split(b"\n")):
@@ -361,7 +361,8 @@ def main():
                        "a truncated data-source output may be any prefix with length in [L_ds-8, L_ds]",
                        "config lines longer than 1022 bytes are outside the domain (C02)"]
     nw, per = (4, 1300) if ctx.quick else (16, 9500)
-    pbt.run(ctx, {"ts-asan": b}, strategy, evaluate, classify, nw, per, sample=sample, fixed_cases=FIXED)
+    pbt.run(ctx, {"ts-asan": b, "nts-asan": ctx.run.build("nts-asan")}, strategy, evaluate, classify, nw, per, sample=sample, fixed_cases=FIXED,
+            variants=["ts-asan", "ts-asan", "nts-asan"])
     ctx.finish()
 
 
